@@ -33,6 +33,7 @@ import (
 	"fmt"
 	"os"
 	"runtime"
+	"sort"
 	"strconv"
 	"strings"
 	"sync"
@@ -253,6 +254,9 @@ func handle(line string) string {
 	}
 	cfg := vlib.Fields(parts[0])
 	ops := vlib.Fields(parts[1])
+	if len(cfg) > 0 && cfg[0] == "who=g" {
+		return handleGrain(cfg[1:], ops)
+	}
 	grainTarget := false
 	if len(cfg) == 3 && (cfg[2] == "to=g" || cfg[2] == "to=a") {
 		grainTarget = cfg[2] == "to=g"
@@ -413,6 +417,322 @@ func handle(line string) string {
 		settle()
 		inF, bl, st, sh := actor.VerifC16Counters(qp)
 		outs = append(outs, fmt.Sprintf("%s|%d.%d.%d.%d|%s", res, inF, bl, st, sh, join(req.take())))
+	}
+	return strings.Join(outs, " ; ")
+}
+
+// ---- a grain as the requester ---------------------------------------------------------
+//
+// case line:  who=g mode=<a|s|-> max=<n> [to=<a|g>] | ops     (same ops)
+//
+// Differences of the code path (grain_pid.go): a blocking request PAUSES the user mailbox (nothing is
+// stashed, arrival order is kept), responses travel in their own queue and go first, admission failures
+// come back as an already-completed call whose Then runs at once with the error, S does what the system
+// shutdown does to a grain (queue-routed cancellation of what is in flight, then a PoisonPill through the
+// user mailbox; whatever is still in flight when the pill is handled is torn down WITH its continuation).
+// Counters: inFlight.blocking.states.queuedUser.queuedResponses.
+
+type grainRequester struct {
+	id        *actor.GrainIdentity
+	to        *actor.PID
+	toGrain   *actor.GrainIdentity
+	mu        sync.Mutex
+	log       []string
+	calls     map[int]actor.RequestCall
+	holding   atomic.Bool
+	permits   atomic.Int64
+	releaseCh chan struct{}
+	deact     atomic.Int64
+}
+
+func (q *grainRequester) add(s string) {
+	q.mu.Lock()
+	q.log = append(q.log, s)
+	q.mu.Unlock()
+}
+
+func (q *grainRequester) take() []string {
+	q.mu.Lock()
+	l := q.log
+	q.log = nil
+	q.mu.Unlock()
+	// the order in which several requests are cancelled by a shutdown follows Go map iteration:
+	// sort every maximal run of consecutive cancelled-continuation entries
+	for i := 0; i < len(l); {
+		j := i
+		for j < len(l) && strings.HasPrefix(l[j], "cb") && strings.Contains(l[j], ":ca:") {
+			j++
+		}
+		if j > i+1 {
+			sort.Strings(l[i:j])
+		}
+		if j == i {
+			j++
+		}
+		i = j
+	}
+	return l
+}
+
+func (q *grainRequester) callback(k int) func(any, error) {
+	return func(res any, err error) {
+		out := "ok"
+		switch {
+		case err == nil:
+			if p, ok := res.(*replyPayload); !ok || p.K != k {
+				out = "er"
+			}
+		case errors.Is(err, gerrors.ErrRequestTimeout):
+			out = "to"
+		case errors.Is(err, gerrors.ErrRequestCanceled):
+			out = "ca"
+		case errors.Is(err, gerrors.ErrReentrancyInFlightLimit):
+			out = "lim"
+		case errors.Is(err, gerrors.ErrReentrancyDisabled):
+			out = "dis"
+		default:
+			out = "er"
+		}
+		turn := 0
+		if gid() != mainGID && actor.VerifC16GrainProcessing(sys, q.id) {
+			turn = 1
+		}
+		q.add(fmt.Sprintf("cb%d:%s:%d", k, out, turn))
+	}
+}
+
+func (q *grainRequester) OnActivate(context.Context, *actor.GrainProps) error { return nil }
+func (q *grainRequester) OnDeactivate(context.Context, *actor.GrainProps) error {
+	q.deact.Add(1)
+	q.add("D")
+	return nil
+}
+func (q *grainRequester) OnReceive(ctx *actor.GrainContext) {
+	switch m := ctx.Message().(type) {
+	case *userMsg:
+		q.add(fmt.Sprintf("m%d", m.k))
+	case *holdMsg:
+		q.add("H")
+		if q.permits.Load() > 0 {
+			q.permits.Add(-1)
+			return
+		}
+		q.holding.Store(true)
+		<-q.releaseCh
+	case *reqCmd:
+		// no real timer: the script fires timeouts itself
+		opts := []actor.RequestOption{actor.WithRequestTimeout(-1)}
+		switch m.mode {
+		case 'a':
+			opts = append(opts, actor.WithReentrancyMode(reentrancy.AllowAll))
+		case 's':
+			opts = append(opts, actor.WithReentrancyMode(reentrancy.StashNonReentrant))
+		case 'o':
+			opts = append(opts, actor.WithReentrancyMode(reentrancy.Off))
+		}
+		var call actor.RequestCall
+		if q.toGrain != nil {
+			call = ctx.RequestGrain(q.toGrain, &reqPayload{K: m.k}, opts...)
+		} else {
+			call = ctx.RequestActor(q.to.Name(), &reqPayload{K: m.k}, opts...)
+		}
+		q.mu.Lock()
+		q.calls[m.k] = call
+		q.mu.Unlock()
+		q.add(fmt.Sprintf("q%d", m.k))
+		if m.then && call != nil {
+			call.Then(q.callback(m.k))
+		}
+	default:
+		ctx.Unhandled()
+	}
+}
+
+func (q *grainRequester) call(k int) actor.RequestCall {
+	q.mu.Lock()
+	defer q.mu.Unlock()
+	return q.calls[k]
+}
+
+func handleGrain(cfg []string, ops []string) string {
+	grainTarget := false
+	if len(cfg) == 3 && (cfg[2] == "to=g" || cfg[2] == "to=a") {
+		grainTarget = cfg[2] == "to=g"
+		cfg = cfg[:2]
+	}
+	if len(cfg) != 2 || !strings.HasPrefix(cfg[0], "mode=") || !strings.HasPrefix(cfg[1], "max=") {
+		return "bad-case"
+	}
+	mode := cfg[0][5:]
+	max, err := strconv.Atoi(cfg[1][4:])
+	if err != nil || max < 0 || (mode != "a" && mode != "s" && mode != "-") {
+		return "bad-case"
+	}
+	seenQ := map[byte]bool{}
+	for _, op := range ops {
+		if !validOp(op) {
+			return "bad-case"
+		}
+		if op[0] == 'q' {
+			if seenQ[op[1]] {
+				return "bad-case"
+			}
+			seenQ[op[1]] = true
+		}
+	}
+	ctx := context.Background()
+	caseNo++
+	resp := &responder{replies: map[int]func(any) error{}}
+	rp, err := sys.Spawn(ctx, fmt.Sprintf("resp%d", caseNo), resp, actor.WithLongLived())
+	if err != nil {
+		return "spawn-error " + err.Error()
+	}
+	defer func() { _ = rp.Shutdown(ctx) }()
+	gresp := &grainResponder{replies: map[int]*actor.GrainReply{}}
+	var gtarget *actor.GrainIdentity
+	if grainTarget {
+		if gtarget, err = sys.GrainIdentity(ctx, fmt.Sprintf("gresp%d", caseNo), func(context.Context) (actor.Grain, error) { return gresp, nil }); err != nil {
+			return "spawn-error " + err.Error()
+		}
+	}
+	req := &grainRequester{to: rp, toGrain: gtarget, calls: map[int]actor.RequestCall{}, releaseCh: make(chan struct{}, 64)}
+	gopts := []actor.GrainOption{actor.WithLongLivedGrain()}
+	switch mode {
+	case "a":
+		gopts = append(gopts, actor.WithGrainReentrancy(reentrancy.New(reentrancy.WithMode(reentrancy.AllowAll), reentrancy.WithMaxInFlight(max))))
+	case "s":
+		gopts = append(gopts, actor.WithGrainReentrancy(reentrancy.New(reentrancy.WithMode(reentrancy.StashNonReentrant), reentrancy.WithMaxInFlight(max))))
+	}
+	qid, err := sys.GrainIdentity(ctx, fmt.Sprintf("greq%d", caseNo), func(context.Context) (actor.Grain, error) { return req, nil }, gopts...)
+	if err != nil {
+		return "spawn-error " + err.Error()
+	}
+	req.id = qid
+	poisoned := false
+	settle := func() {
+		spin("settle", func() bool {
+			return actor.VerifC16Idle(rp) && actor.VerifC16GrainIdle(sys, gtarget) &&
+				(actor.VerifC16GrainSettled(sys, qid) || req.holding.Load())
+		})
+	}
+	defer func() {
+		// tear the grain down whatever state the script left it in: release parked handlers, complete what
+		// still pauses it, poison it (a reply arriving after a deactivation re-activates the virtual grain,
+		// so possibly more than once)
+		for round := 0; round < 64; round++ {
+			if req.holding.Load() {
+				req.holding.Store(false)
+				req.releaseCh <- struct{}{}
+			} else if !actor.VerifC16GrainActive(sys, qid) {
+				return
+			} else {
+				req.mu.Lock()
+				var ids []string
+				for _, c := range req.calls {
+					if c != nil && actor.VerifC16CallID(c) != "" {
+						ids = append(ids, actor.VerifC16CallID(c))
+					}
+				}
+				req.mu.Unlock()
+				for _, id := range ids {
+					actor.VerifC16GrainFireTimeout(sys, qid, id)
+				}
+				actor.VerifC16GrainPoison(sys, qid)
+			}
+			spin("grain teardown", func() bool {
+				return req.holding.Load() || !actor.VerifC16GrainActive(sys, qid) || actor.VerifC16GrainSettled(sys, qid)
+			})
+		}
+	}()
+	// activate
+	if err := actor.VerifC16GrainTell(sys, qid, &userMsg{k: 99}); err != nil {
+		return "spawn-error " + err.Error()
+	}
+	settle()
+	req.take()
+	var outs []string
+	for _, op := range ops {
+		res := "ok"
+		k := 0
+		if len(op) > 1 {
+			k = int(op[1] - '0')
+		}
+		deliver := func(m any) {
+			if poisoned {
+				res = "gone"
+				return
+			}
+			if err := actor.VerifC16GrainTell(sys, qid, m); err != nil {
+				res = "dead"
+			}
+		}
+		switch op[0] {
+		case 'q':
+			deliver(&reqCmd{k: k, mode: op[2], then: op[3] == 't'})
+		case 'm':
+			deliver(&userMsg{k: k})
+		case 'H':
+			deliver(&holdMsg{})
+		case 'L':
+			if req.holding.Load() {
+				req.holding.Store(false)
+				req.releaseCh <- struct{}{}
+			} else {
+				req.permits.Add(1)
+			}
+		case 'r':
+			if grainTarget {
+				gresp.mu.Lock()
+				gr := gresp.replies[k]
+				gresp.mu.Unlock()
+				if gr == nil {
+					res = "none"
+				} else {
+					gr.Response(&replyPayload{K: k})
+				}
+				break
+			}
+			resp.mu.Lock()
+			f := resp.replies[k]
+			resp.mu.Unlock()
+			if f == nil {
+				res = "none"
+			} else if err := f(&replyPayload{K: k}); err != nil {
+				res = "err"
+			}
+		case 'x':
+			if c := req.call(k); c == nil || actor.VerifC16CallID(c) == "" {
+				res = "none"
+			} else {
+				actor.VerifC16GrainFireTimeout(sys, qid, actor.VerifC16CallID(c))
+			}
+		case 'c':
+			if c := req.call(k); c == nil {
+				res = "none"
+			} else if err := c.Cancel(); err != nil {
+				res = "err"
+			}
+		case 'T':
+			if c := req.call(k); c == nil {
+				res = "none"
+			} else {
+				c.Then(req.callback(k))
+			}
+		case 'S':
+			if poisoned {
+				res = "gone"
+			} else {
+				actor.VerifC16GrainPoison(sys, qid)
+				poisoned = true
+			}
+		}
+		settle()
+		inF, bl, st, qd, rs := actor.VerifC16GrainCounters(sys, qid)
+		cnt := fmt.Sprintf("%d.%d.%d.%d.%d", inF, bl, st, qd, rs)
+		if req.deact.Load() > 0 {
+			cnt = "x" // deactivated: a later envelope may re-activate the virtual grain, nothing is compared
+		}
+		outs = append(outs, fmt.Sprintf("%s|%s|%s", res, cnt, join(req.take())))
 	}
 	return strings.Join(outs, " ; ")
 }
